@@ -26,8 +26,9 @@ use std::marker::PhantomData;
 // A-astbuilder: a generated planner method creates the node named after it from its arguments, in order, and returns the
 // node's output buffer.  The stand-in records which method was called with which arguments.
 #[derive(Clone, Copy, PartialEq, Debug)]
-pub enum Node { None, NullVec { len: usize }, NullVecLike { plan: usize, source_type: u8 }, Filter { plan: usize, by: usize }, NullableFilter { plan: usize, by: usize }, Select { plan: usize, by: usize }, Empty }
-pub struct QueryPlanner { pub last: Node, pub next: usize }
+pub enum Node { None, FuseNulls { input: usize }, TopN { ranking: usize, n: usize, desc: bool }, Indices { of: usize }, SortBy { ranking: usize, indices: usize, desc: bool, stable: bool }, NullVec { len: usize }, NullVecLike { plan: usize, source_type: u8 }, Filter { plan: usize, by: usize }, NullableFilter { plan: usize, by: usize }, Select { plan: usize, by: usize }, Empty }
+pub struct QueryPlanner { pub last: Node, pub next: usize, pub fused: usize }
+pub struct Nfq { pub order_by: Vec<()> }
 impl QueryPlanner {
     fn out(&mut self, n: Node, tag: EncodingType) -> TypedBufferRef { self.last = n; self.next += 1; TypedBufferRef::new(BufferRef { i: self.next, name: "out", t: PhantomData }, tag) }
     pub fn null_vec(&mut self, len: usize, nulls: EncodingType) -> TypedBufferRef { self.out(Node::NullVec { len }, nulls) }
@@ -36,6 +37,11 @@ impl QueryPlanner {
     pub fn nullable_filter(&mut self, plan: TypedBufferRef, select: BufferRef<Nullable<u8>>) -> TypedBufferRef { self.out(Node::NullableFilter { plan: plan.buffer.i, by: select.i }, plan.tag) }
     pub fn select(&mut self, plan: TypedBufferRef, indices: BufferRef<usize>) -> TypedBufferRef { self.out(Node::Select { plan: plan.buffer.i, by: indices.i }, plan.tag) }
     pub fn empty(&mut self, t: EncodingType) -> TypedBufferRef { self.out(Node::Empty, t) }
+    // fuse_nulls: the generated method derives the output type with EncodingType::nullable_fused() (#[output(t = "base=nullable;null=_fused")])
+    pub fn fuse_nulls(&mut self, nullable: TypedBufferRef) -> TypedBufferRef { let t = nullable.tag.nullable_fused(); self.fused += 1; self.out(Node::FuseNulls { input: nullable.buffer.i }, t) }
+    pub fn top_n(&mut self, ranking: TypedBufferRef, n: usize, desc: bool) -> TypedBufferRef { self.out(Node::TopN { ranking: ranking.buffer.i, n, desc }, EncodingType::USize) }
+    pub fn indices(&mut self, plan: TypedBufferRef) -> TypedBufferRef { self.out(Node::Indices { of: plan.buffer.i }, EncodingType::USize) }
+    pub fn sort_by(&mut self, ranking: TypedBufferRef, indices: TypedBufferRef, desc: bool, stable: bool) -> TypedBufferRef { self.out(Node::SortBy { ranking: ranking.buffer.i, indices: indices.buffer.i, desc, stable }, EncodingType::USize) }
 }
 include!("routing.rs");
 
@@ -60,7 +66,7 @@ mod proofs {
     fn missing_column_rows_match_filter() {
         let filter = any_filter();
         let column_len: usize = kani::any();
-        let mut planner = QueryPlanner { last: Node::None, next: usize::MAX / 2 };
+        let mut planner = QueryPlanner { last: Node::None, next: usize::MAX / 2, fused: 0 };
         let col = TypedBufferRef::new(BufferRef { i: kani::any(), name: "c", t: PhantomData }, EncodingType::I64);
         let real = filter.apply_filter(&mut planner, col);
         let real_node = planner.last;
@@ -100,6 +106,39 @@ mod proofs {
             }
         }
     }
+    fn any_tag() -> EncodingType {
+        let k: u8 = kani::any();
+        kani::assume(k < 30);
+        use EncodingType::*;
+        match k {
+            0 => Str, 1 => I64, 2 => U8, 3 => U16, 4 => U32, 5 => U64, 6 => F64, 7 => Val, 8 => USize, 9 => Bitvec,
+            10 => NullableStr, 11 => NullableI64, 12 => NullableU8, 13 => NullableU16, 14 => NullableU32, 15 => NullableU64, 16 => NullableF64,
+            17 => OptStr, 18 => Null, 19 => ScalarI64, 20 => ScalarF64, 21 => ScalarStr, 22 => ScalarString, 23 => ConstVal,
+            24 => ByteSlices(kani::any()), 25 => ValRows, 26 => Premerge, _ => MergeOp,
+        }
+    }
+    // ORDER BY one key with a small LIMIT: whatever the type of the sort key (narrow nullable encodings included), the planner
+    // produces a plan - top-n over a key that has a fused-NULL representation, or a full sort - and never panics
+    #[kani::proof]
+    #[kani::unwind(4)]
+    fn order_by_path_for_every_key_type() {
+        let ranking = TypedBufferRef::new(BufferRef { i: kani::any(), name: "r", t: PhantomData }, any_tag());
+        let keys: u8 = kani::any();
+        kani::assume(keys >= 1 && keys <= 2);
+        let this = Nfq { order_by: if keys == 1 { vec![()] } else { vec![(), ()] } };
+        let (limit, len): (usize, usize) = (kani::any(), kani::any());
+        let desc: bool = kani::any();
+        let mut planner = QueryPlanner { last: Node::None, next: usize::MAX / 2, fused: 0 };
+        kani::cover!(ranking.tag == EncodingType::NullableU8 && limit < len / 2 && keys == 1, "vacuity: small LIMIT on a narrow nullable key");
+        let out = order_by_indices(&this, &mut planner, ranking, limit, 0..len, &desc, None);
+        match planner.last {
+            Node::TopN { n, desc: d, .. } => assert!(n == limit && d == desc && keys == 1 && limit < len / 2, "[top-n-only-when-small] the heap is used only for one key and a LIMIT below half the partition"),
+            Node::SortBy { ranking: r, desc: d, stable, .. } => assert!(r == ranking.buffer.i && d == desc && stable, "[full-sort] otherwise the key is sorted (stably) in the requested direction"),
+            Node::Indices { of } => assert!(ranking.is_constant() && of == ranking.buffer.i, "[constant-key] a constant key leaves the row order alone"),
+            _ => assert!(false, "[some-plan] a sort plan is produced"),
+        }
+    }
+
     #[kani::proof]
     fn vx_canary() {
         let x: u8 = kani::any();
